@@ -31,3 +31,15 @@ func (rm *Manager) VerifCachedResponse(uid types.UID, generation int64) (interfa
 	_ = json.Unmarshal(b, &v)
 	return v, true
 }
+
+// VerifOnRelated delivers a related-object event to the manager's own handlers.
+func (rm *Manager) VerifOnRelated(typ string, old, obj interface{}) {
+	switch typ {
+	case "add":
+		rm.onRelatedAdd(obj)
+	case "update":
+		rm.onRelatedUpdate(old, obj)
+	case "delete":
+		rm.onRelatedDelete(obj)
+	}
+}
